@@ -750,7 +750,22 @@ func runForward(t *tr.Trace, r *tr.Rand, n int) {
 						h.nack(os)
 					}
 				case 4:
-					h.updrate(uint64(r.Range(0, 3000000)), r.Chance(1, 5), uint8(r.Intn(256)), uint32(r.Range(0, 400000)))
+					// previous ceiling: anywhere, and at and around the bounds (a fresh
+					// track holds 0 with a fresh timestamp during the first 30 s)
+					rate0 := uint64(r.Range(0, 3000000))
+					switch r.Pick(3, 2, 2, 1) {
+					case 1:
+						rate0 = []uint64{0, 1, 9599, 9600, 9601}[r.Intn(5)]
+					case 2:
+						rate0 = []uint64{1<<30 - 1, 1 << 30, 1<<30 + 1, 1 << 40}[r.Intn(4)]
+					case 3:
+						rate0 = uint64(r.Range(0, 9600))
+					}
+					loss := uint8(r.Intn(256))
+					if r.Chance(1, 3) {
+						loss = []uint8{0, 4, 5, 6, 25, 26, 27, 255}[r.Intn(8)]
+					}
+					h.updrate(rate0, r.Chance(1, 5), loss, uint32(r.Range(0, 400000)))
 					// updateRate moved the loss-based maximum and the driver moved
 					// the estimator: fix the inputs of adjustLayer again
 					h.rates(uint32(r.Range(0, 300000)), "524288", 524288, false, uint64(r.Intn(2)*r.Range(1, 4000000)))
